@@ -93,11 +93,11 @@ CLAIMED = {
          "real-memory frame property rests on safe Rust/ndarray; exercised by poisoned windows", "Lean 4 proof (view decomposition, write/read lemmas) + poisoned-buffer runs"),
  "C15": ("Kernel-checked: Linear — scale data, superposition, any strictly increasing axis relabelling commuting with calc_frac, instantiated "
          "to scaling by c>0 and shifting; Bilinear — scale data; spline end to end for every non-periodic boundary pair — data x c (C15_spline_scale_data), shift (C15_spline_shift), "
-         "axis x c>0 with converted boundary values (C15_spline_scale_axis, by uniqueness), superposition (C15_spline_add: thomas_add + additive rows); Periodic (n>=4) C15_periodic_scale_data/_add/_shift/_scale_axis by uniqueness; "
+         "axis x c>0 with converted boundary values (C15_spline_scale_axis, by uniqueness), superposition (C15_spline_add: thomas_add + additive rows); Periodic (n>=4) C15_periodic_scale_data/_add/_shift/_scale_axis by uniqueness, 3-point Periodic C15_periodic3_* on the closed form; "
          "bit-for-bit half C15_hom_linear_data for ARBITRARY scalar operations. Metamorphic pairs on the real code: exact at Q for every "
          "strategy and boundary configuration (data x c, axis x c with converted boundary values, shifts, superposition), bit-for-bit at "
          "f64 for powers of two, negation and dyadic shifts.", "§5 C15",
-         "3-point Periodic closed form under the unit changes: exact metamorphic runs only (see PARTIAL in evidence)",
+         "bit-for-bit claim for the spline at f64 is tested, not proved",
          "Lean 4 proof (Linear/Bilinear; spline scale/add/shift/axis-scale end to end) + exact metamorphic runs + formula tie (kernels re-translated from the source each run, FT_* theorems)"),
  "C16": ("Kernel-checked: C16_linear, C16_bilinear (every query, in range or extrapolated), C16_spline (a cubic meeting the selected end "
          "conditions is reproduced: solver returns p'(x_i) by uniqueness, Hermite form of a cubic is the cubic), C16_notAKnot (n>=4), "
